@@ -56,6 +56,14 @@
 #define VF_CFGS( e, TOP, ACT )                                                                                   \
    VF_CFG_SC( "scopes-action-req-eager", TOP, ACT, vf::obs_control_unw, action, required, eager, true, true, false ); \
    VF_CFG_SC( "scopes-nothing-opt-lazy", TOP, ACT, vf::obs_control_unw, nothing, optional, lazy, false, false, true )
+#elif VF_CFGSET == 9
+// C05: must_if< errs, observer >::control (errs is emitted with the grammar)
+#define VF_CFG_MI( NAME, TOP, ACT, A, M, T, actions, required, lazy ) \
+   e.cfgs.push_back( vf::cfg_entry{ NAME, &vf::runner< TOP, ACT, tao::pegtl::must_if< errs, vf::obs_control_unw, false >::template control, tao::pegtl::apply_mode::A, tao::pegtl::rewind_mode::M, tao::pegtl::tracking_mode::T, VF_EOL >, actions, required, lazy, true, true, VF_EOL_ID, 0, 1, 1, -1, false, true } )
+#define VF_CFGS( e, TOP, ACT )                                                                                              \
+   VF_CFG( "act-req-obs-eager", TOP, ACT, vf::obs_control_unw, action, required, eager, true, true, false, true, true );     \
+   VF_CFG_MI( "mustif-act-req-eager", TOP, ACT, action, required, eager, true, true, false );                               \
+   VF_CFG_MI( "mustif-act-opt-lazy", TOP, ACT, action, optional, lazy, true, false, true )
 #elif VF_CFGSET == 4
 // C08: observer through state_control, and the coverage facility
 #define VF_CFGS( e, TOP, ACT )                                                                                                 \
